@@ -413,3 +413,14 @@ func (b *Block) InjectBeforeMeta(raws ...[]byte) {
 
 // ValidatorsAt returns the engine's validator set for a height (nil when unknown).
 func (e *Engine) ValidatorsAt(h int64) ValSet { return e.valsAt[h] }
+
+// PreconditionLost recognises the documented precondition of the chain ("enough stake-eligible validators remain to
+// elect a validator set") in the text of a failed block: the scheduler reports that it could not elect validators. The
+// match is on the notions, not on one exact wording, so that a rewording of the message is not mistaken for a halt.
+func PreconditionLost(msg string) bool {
+	m := strings.ToLower(msg)
+	if strings.Contains(m, "insufficient validators") {
+		return true
+	}
+	return strings.Contains(m, "elect") && strings.Contains(m, "validator")
+}
